@@ -49,6 +49,8 @@ type Loaded struct {
 	Gen   *packages.Package // cmd/go-art
 	Sizes types.Sizes
 	extra map[string][]byte // overlay contents (mutants/variants)
+	// Renames lists the identifiers that were renamed to the canonical vocabulary in the overlay.
+	Renames []string
 }
 
 // overlayFile returns the in-memory instantiation file (never written to /repo). It references
@@ -107,7 +109,39 @@ type loadOpts struct {
 	extra    map[string][]byte // further overlay (mutants, variants): abs path → content
 }
 
+// load loads the tree and, when it calls the identifiers the rules rely on by other names, loads it
+// a second time with those identifiers renamed to the canonical vocabulary in the overlay.
 func load(o loadOpts) (*Loaded, error) {
+	l, err := loadOnce(o)
+	if err != nil {
+		return nil, err
+	}
+	rs := discoverNames(l)
+	if len(rs.want) == 0 {
+		return l, nil
+	}
+	ren := renamedSources(l, rs)
+	if len(ren) == 0 {
+		return l, nil
+	}
+	o2 := o
+	o2.extra = map[string][]byte{}
+	for k, v := range o.extra {
+		o2.extra[k] = v
+	}
+	for k, v := range ren {
+		o2.extra[k] = v
+	}
+	l2, err := loadOnce(o2)
+	if err != nil {
+		return nil, fmt.Errorf("after renaming %d identifiers to the canonical vocabulary (%s): %v", len(rs.want), strings.Join(rs.notes, "; "), err)
+	}
+	l2.extra = o.extra // non-Go readers (template, assembly) see the tree's own files
+	l2.Renames = rs.notes
+	return l2, nil
+}
+
+func loadOnce(o loadOpts) (*Loaded, error) {
 	fset := token.NewFileSet()
 	mode := packages.LoadSyntax
 	if o.allDeps {
